@@ -396,7 +396,19 @@ func runC06(c *core.Ctx) {
 				c.OK(rkey, p.Pos(ret.Pos()), "failure return carrying a setup / I-O / hash-mismatch error")
 				continue
 			}
-			path, reached := core.Reach(fn, nil, func(in ssa.Instruction) bool { return in == ssa.Instruction(ret) }, blocked, nil)
+			path, reached := core.Reach(fn, nil, func(in ssa.Instruction) bool {
+				if in != ssa.Instruction(ret) {
+					return false
+				}
+				// one return statement fed by a result variable: what it returns on this path
+				rv := unspill(ret.Results[errIdx], ret)
+				if pv := core.PathValue(rv); pv != rv && core.NilnessAt(pv, ret.Block()) == core.NonNil {
+					if ok, _ := allowedPreCheckError(lf, pv, copyCalls); ok {
+						return false
+					}
+				}
+				return true
+			}, blocked, nil)
 			if reached {
 				allOK = false
 				c.Fail(rkey, p.Pos(ret.Pos()), "return ("+why+") is reachable without passing the equal edge of the hash comparison (nor TrustedStorage)", p.Witness(path)...)
@@ -599,14 +611,28 @@ func runC06(c *core.Ctx) {
 			}
 			errIdx := core.ErrResultIndex(fn)
 			for _, ret := range core.Returns(fn) {
-				nonnil := core.ResultNilness(ret, errIdx) == core.NonNil
 				rkey := fmt.Sprintf("%s#data[%s]", key, describeReturn(ret, errIdx))
-				if nonnil {
-					c.Check(core.ResultNilness(ret, 0) == core.IsNil, rkey, p.Pos(ret.Pos()), "failure return carries no bytes", "failure return carries (possibly partial) data")
-				} else {
-					rv := core.ResultValues(ret, 0)
-					c.Check(len(rv) == 1 && wholeBuf(rv[0]), rkey, p.Pos(ret.Pos()), "returned bytes are the whole hashed buffer", "returned bytes are not exactly buf.Bytes() of the hashed buffer")
+				// one return statement fed by result variables is judged case by case
+				good, what := true, ""
+				for _, rc := range returnCases(ret, 0, errIdx) {
+					nonnil := true
+					for _, v := range core.ReachingValues(rc.err, ret) {
+						if core.NilnessAt(v, ret.Block()) != core.NonNil {
+							nonnil = false
+						}
+					}
+					rv := core.ReachingValues(rc.data, ret)
+					if nonnil {
+						for _, v := range rv {
+							if core.NilnessAt(v, ret.Block()) != core.IsNil {
+								good, what = false, "failure return carries (possibly partial) data"
+							}
+						}
+					} else if len(rv) != 1 || !wholeBuf(rv[0]) {
+						good, what = false, "returned bytes are not exactly buf.Bytes() of the hashed buffer"
+					}
 				}
+				c.Check(good, rkey, p.Pos(ret.Pos()), "a failure return carries no bytes; returned bytes are the whole hashed buffer", what)
 			}
 		}
 	}
@@ -1057,4 +1083,40 @@ func isHashSink(v ssa.Value) bool {
 		}
 	}
 	return false
+}
+
+// retCase is one way a return statement fed by phis of result variables returns: the data and error values that
+// arrive together over one incoming edge of the join.
+type retCase struct{ data, err ssa.Value }
+
+func returnCases(ret *ssa.Return, dataIdx, errIdx int) []retCase {
+	d, e := unspill(ret.Results[dataIdx], ret), unspill(ret.Results[errIdx], ret)
+	dp, dIs := d.(*ssa.Phi)
+	ep, eIs := e.(*ssa.Phi)
+	var out []retCase
+	switch {
+	case dIs && eIs && dp.Block() == ep.Block():
+		for i := range dp.Edges {
+			out = append(out, retCase{dp.Edges[i], ep.Edges[i]})
+		}
+	case eIs && !dIs:
+		for _, x := range ep.Edges {
+			out = append(out, retCase{d, x})
+		}
+	case dIs && !eIs:
+		for _, x := range dp.Edges {
+			out = append(out, retCase{x, e})
+		}
+	default:
+		out = append(out, retCase{d, e})
+	}
+	return out
+}
+
+// unspill looks through the reload of a result that go/ssa keeps in memory because the function defers.
+func unspill(v ssa.Value, ret *ssa.Return) ssa.Value {
+	if rv := core.ReachingValues(v, ret); len(rv) == 1 && !core.IsZeroMarker(rv[0]) {
+		return rv[0]
+	}
+	return v
 }
